@@ -20,7 +20,8 @@ RULE = ("per tree shape: (a) raw vs own log2(CPM+1) declared normalised; "
         "factor 0.5 and 1; (d) every subset of 3 extra genes {in reference "
         "but no marker, not in reference x2} added to normalised input; (e) a "
         "negative raw value at every (cell, gene) position x {dense, CSR, "
-        "CSC} must raise and write no results.  Bitwise equality for (c),(d); "
+        "CSC} x HDF5 layouts {contiguous, chunk length 1,2,3,5} must raise "
+        "and write no results.  Bitwise equality for (c),(d); "
         "1e-9 on correlations at factor 1 for (a),(b), near-ties skipped.  "
         "distinct_nontrivial = distinct (shape, relation, instance) pairs "
         "compared")
@@ -245,8 +246,36 @@ def evaluate(case, scratch):
                     elif c.blob and 'results' in c.blob:
                         viol('negative-raw-results-written', where)
                     keys.append(f'{shape_s}|neg|{enc}|{i}|{j}')
-            # the same negative value is fine when declared log2CPM? no
-            # statement - not judged
+        # the same, with X stored in chunked HDF5 datasets (what anndata
+        # writes with compression): the scan for the minimum proceeds
+        # block-wise, so the position of the value relative to the block
+        # boundaries matters
+        from mc import sparsegen
+        for enc in ('csr', 'csc', 'dense'):
+            for chunks in (1, 2, 3, 5):
+                for i in range(b.raw.shape[0]):
+                    for j, g in enumerate(b.query_genes):
+                        if (i + j + chunks) % 2:
+                            continue
+                        mat = np.array(b.raw)
+                        mat[i, j] = -1.0
+                        q = b.dir / f'q_negc_{enc}_{chunks}_{i}_{j}.h5ad'
+                        sparsegen.write_h5ad(
+                            q, mat, enc, chunks=chunks,
+                            obs_ids=list(b.cell_ids),
+                            var_ids=list(b.query_genes))
+                        c = scenario.run_mapping(
+                            b, dict(f1, normalization='raw', encoding=enc),
+                            scratch.new_dir('n'), query_path=q)
+                        n_runs += 1
+                        where = (f'{enc} chunked({chunks}) cell {i} gene '
+                                 f'{g} (marker: {g in used})')
+                        if c.ok:
+                            viol('negative-raw-accepted', where)
+                        elif c.blob and 'results' in c.blob:
+                            viol('negative-raw-results-written', where)
+                        keys.append(f'{shape_s}|negc|{enc}|{chunks}|{i}|{j}')
+                        q.unlink()
         sample = {'relation': 'negative raw value at every position',
                   'cells': 3, 'genes': len(b.query_genes)}
 
